@@ -224,5 +224,5 @@ def jobs(tier):
     add(1, 'plain', 2, 2, [[], ['A', 'B', 'X']], caches=(True,))
     if not q:
         add(1, None, 3, 3, [[]], D=1)
-        add(2, None, 3, 3, [[], ['A', 'B', 'C']], split=18)
+        add(2, None, 2, 3, [['A'], ['A', 'B', 'C']], split=18, no_get=True, lazy=False)
     return out
